@@ -1849,3 +1849,52 @@ Proof.
   - intros k v. apply (missing_spec first_token data ls k v Hnd).
   - apply (missing_spec first_token data ls [] None Hnd).
 Qed.
+
+(* ================================================================== additions (round 2) *)
+
+(* sorting by distinct ids is canonical: whatever order the rows were written in, the reader
+   returns them in the one id-sorted order *)
+Lemma sorted_perm_unique {A} (key : A -> Z) : forall l1 l2,
+  StronglySorted (fun x y => key x <= key y) l1 -> StronglySorted (fun x y => key x < key y) l2 ->
+  Permutation l1 l2 -> l1 = l2.
+Proof.
+  induction l1 as [|a t1 IH]; intros l2 H1 H2 Hp.
+  - apply Permutation_nil in Hp. now subst.
+  - destruct l2 as [|b t2]; [apply Permutation_sym, Permutation_nil in Hp; discriminate|].
+    inversion H1 as [|? ? Hs1 Hf1]; subst. inversion H2 as [|? ? Hs2 Hf2]; subst.
+    assert (Hab : a = b).
+    { assert (Ha : In a (b :: t2)) by (apply (Permutation_in _ Hp); now left).
+      assert (Hb : In b (a :: t1)) by (apply (Permutation_in _ (Permutation_sym Hp)); now left).
+      destruct Ha as [Ha|Ha]; [now subst|]. destruct Hb as [Hb|Hb]; [now subst|].
+      rewrite Forall_forall in Hf1, Hf2. specialize (Hf1 _ Hb). specialize (Hf2 _ Ha). lia. }
+    subst b. f_equal. apply IH; [assumption|assumption|]. now apply Permutation_cons_inv with a.
+Qed.
+
+Theorem sort_by_canonical {A} (key : A -> Z) l p :
+  StronglySorted (fun x y => key x < key y) l -> Permutation p l -> sort_by key p = l.
+Proof.
+  intros Hl Hp. apply (sorted_perm_unique key).
+  - apply Sorted_StronglySorted; [intros x y z; lia|apply sort_by_sorted].
+  - exact Hl.
+  - apply Permutation_trans with p; [apply sort_by_perm|exact Hp].
+Qed.
+
+(* a value that already has d decimals is left alone: re-writing a file that was read does
+   not move any number *)
+Lemma rhe_integer n p : rhe ((n * Zpos p) # p) = n.
+Proof.
+  unfold rhe. cbn [Qnum Qden]. rewrite Z.div_mul by lia. rewrite Z.mod_mul by lia.
+  destruct (Z.ltb_spec (2 * 0) (Zpos p)); [reflexivity|lia].
+Qed.
+
+Theorem round_d_idempotent d x : round_d d (round_d d x) = round_d d x.
+Proof.
+  unfold round_d. set (N := scaled d x). f_equal. unfold scaled.
+  assert (E : ((N # pow10p d) * inject_Z (pow10 d))%Q = ((N * Zpos (pow10p d)) # pow10p d)).
+  { unfold Qmult, inject_Z. cbn [Qnum Qden]. rewrite Pos.mul_1_r, pow10p_spec. reflexivity. }
+  rewrite E. apply rhe_integer.
+Qed.
+
+Theorem reprint_fixed w d nz x :
+  parse_fixed (print_fixed w d nz (round_d d x)) = Some (round_d d x).
+Proof. rewrite parse_print_fixed. f_equal. apply round_d_idempotent. Qed.
